@@ -52,6 +52,11 @@ Definition recs_intact (evs : list ev) (img : image) (bound : Z) : Prop :=
   forall off bs, In (EAppended off bs) evs -> off + 4 + zlen bs <= bound ->
     FREE_START <= off /\ read img off (4 + zlen bs) = Some (rec bs).
 
+(** No item straddles [bound]: every item lies wholly below it or wholly at or above it
+    (so nothing appended after the commit whose frontier is [bound] reaches below it). *)
+Definition recs_sep (evs : list ev) (bound : Z) : Prop :=
+  forall off bs, In (EAppended off bs) evs -> off + 4 + zlen bs <= bound \/ bound <= off.
+
 (** Data committed before this epoch is untouched. *)
 Definition old_intact (s : start) (img : image) (r : root) : Prop :=
   match s with
@@ -65,6 +70,7 @@ Definition old_intact (s : start) (img : image) (r : root) : Prop :=
 Definition backed (s : start) (evs : list ev) (img : image) (r : root) : Prop :=
   FREE_START <= free_offset r <= isize img
   /\ recs_intact evs img (free_offset r)
+  /\ recs_sep evs (free_offset r)
   /\ old_intact s img r
   /\ wf_root r /\ slot_sane img ROOT_A /\ slot_sane img ROOT_B.
 
@@ -81,9 +87,12 @@ Definition D (s : start) (evs : list ev) : disk := disk_after (start_image s) ev
 Lemma D_snoc s evs e : D s (evs ++ [e]) = ev_step (D s evs) e.
 Proof. unfold D, disk_after. rewrite fold_left_app. reflexivity. Qed.
 
-(** Every crash image of the state after [evs] has an allowed outcome. *)
+(** Every crash image of the state after [evs] has an allowed outcome; and if [evs] ends
+    with the start of a root-record write, nothing is pending at that point (every earlier
+    write was made durable by a barrier: data before root). *)
 Definition good (s : start) (evs : list ev) : Prop :=
-  forall img', crash (D s evs) img' -> outcome_ok s evs img'.
+  (forall img', crash (D s evs) img' -> outcome_ok s evs img')
+  /\ (forall pre r, evs = pre ++ [ERootBegin r] -> pnd (D s pre) = []).
 
 (** What an epoch may start from. *)
 Definition start_ok (s : start) : Prop :=
@@ -97,8 +106,8 @@ Definition start_ok (s : start) : Prop :=
 
 (** The checksum idealisation, for one root-record write: an image that differs from [D0]
     only inside the record's extent in [slot], where every byte is either the old byte
-    or the new record's byte, validates in that slot either as the new root or as
-    whatever the slot validated to before. *)
+    or the new record's byte, validates in that slot either as the new root, or as
+    whatever the slot validated to before, or not at all. *)
 Definition mix_of (D0 : image) (slot : Z) (R : list N) (img' : image) : Prop :=
   FREE_START <= isize img'
   /\ forall x, slot <= x < slot + 260 ->
@@ -106,7 +115,7 @@ Definition mix_of (D0 : image) (slot : Z) (R : list N) (img' : image) : Prop :=
        \/ (x < slot + zlen R /\ ibyte img' x = nth (Z.to_nat (x - slot)) R 0%N).
 Definition tear_ok (D0 : image) (slot : Z) (r : root) : Prop :=
   forall img', mix_of D0 slot (rec (ser_root r)) img' ->
-    lv img' slot = Some r \/ lv img' slot = lv D0 slot.
+    lv img' slot = Some r \/ lv img' slot = lv D0 slot \/ lv img' slot = None.
 
 (** * Slots *)
 
@@ -164,11 +173,14 @@ Record idle (s : start) (evs : list ev) (stable : option (root * Z)) (fo ae : Z)
               holds (dur (D s evs)) off (rec bs);
   id_old : old_ok s (dur (D s evs)) stable;
   id_slots : slots_ok s (dur (D s evs)) stable;
+  id_sep : recs_sep evs (sfront stable);
 }.
 
 Lemma idle_good s evs stable fo ae : idle s evs stable fo ae -> good s evs.
 Proof.
-  intros [Hst Hinf Hord Hsz Hp Hv Hd Hold Hsl] img' Hc.
+  intros [Hst Hinf Hord Hsz Hp Hv Hd Hold Hsl Hsep]. split.
+  2:{ intros pre r He. subst evs. unfold inflight in Hinf. rewrite marks_snoc in Hinf. discriminate. }
+  intros img' Hc.
   destruct (torn_frame _ _ _ 0 (sfront stable) Hc Hp) as [Hsize Hframe].
   unfold outcome_ok.
   destruct stable as [[rs cs]|]; cbn [sfront option_map fst slots_ok] in *.
@@ -214,12 +226,13 @@ Proof. unfold view. cbn [disk_step dur pnd]. rewrite flush_app. reflexivity. Qed
 Lemma idle_falloc s evs stable fo ae m off len :
   idle s evs stable fo ae -> idle s (evs ++ [ESys (SFalloc m off len)]) stable fo ae.
 Proof.
-  intros [Hst Hinf Hord Hsz Hp Hv Hd Hold Hsl].
+  intros [Hst Hinf Hord Hsz Hp Hv Hd Hold Hsl Hsep].
   constructor; unfold stable_root, inflight in *; rewrite ?marks_sys, ?D_snoc; cbn [ev_step disk_step dur pnd]; auto.
   - apply Forall_app. split; auto. constructor; [exact I | constructor].
   - intros o bs Hin. apply in_snoc_sys in Hin. destruct (Hv o bs Hin) as (A & B & C).
     splitc; auto. fold (disk_step (D s evs) (SFalloc m off len)). rewrite view_falloc.
     eapply holds_ext; [exact C | cbn; lia | auto].
+  - intros o bs Hin. apply in_snoc_sys in Hin. auto.
   - intros o bs Hin. apply in_snoc_sys in Hin. auto.
 Qed.
 
@@ -229,7 +242,7 @@ Lemma idle_sync s evs stable fo ae ae' y :
   idle s evs stable fo ae -> fo <= ae' -> ae' <= isize (view (D s evs)) ->
   idle s (evs ++ [ESys y]) stable fo ae'.
 Proof.
-  intros Hy [Hst Hinf Hord Hsz Hp Hv Hd Hold Hsl] Hfo Hae.
+  intros Hy [Hst Hinf Hord Hsz Hp Hv Hd Hold Hsl Hsep] Hfo Hae.
   destruct (flush_frame (dur (D s evs)) (pnd (D s evs)) 0 (sfront stable) Hp) as [Hsize Hframe].
   fold (view (D s evs)) in Hsize, Hframe.
   assert (HD : D s (evs ++ [ESys y]) = {| dur := view (D s evs); pnd := [] |}).
@@ -252,6 +265,7 @@ Proof.
       * apply slot_sane_ext with (img := dur (D s evs)); auto. intros x Hx. apply Hframe. consts. lia.
       * apply slot_sane_ext with (img := dur (D s evs)); auto. intros x Hx. apply Hframe. consts. lia.
     + destruct Hsl as [Hs Hz]. split; auto. intros x Hx. rewrite Hframe by (consts; lia). auto.
+  - intros o bs Hin. apply in_snoc_sys in Hin. auto.
 Qed.
 
 (** A data write at or above the in-memory frontier, inside the allocated region. *)
@@ -259,13 +273,14 @@ Lemma idle_pwrite s evs stable fo ae off bs :
   idle s evs stable fo ae -> fo <= off -> off + zlen bs <= ae ->
   idle s (evs ++ [ESys (SPwrite off bs)]) stable fo ae.
 Proof.
-  intros [Hst Hinf Hord Hsz Hp Hv Hd Hold Hsl] Hoff Hend.
+  intros [Hst Hinf Hord Hsz Hp Hv Hd Hold Hsl Hsep] Hoff Hend.
   constructor; unfold stable_root, inflight in *; rewrite ?marks_sys, ?D_snoc; cbn [ev_step disk_step dur pnd]; auto.
   - apply Forall_app. split; auto. constructor; [cbn; lia | constructor].
   - intros o b Hin. apply in_snoc_sys in Hin. destruct (Hv o b Hin) as (A & B & C).
     splitc; auto. fold (disk_step (D s evs) (SPwrite off bs)). rewrite view_pwrite.
     eapply holds_ext; [exact C | apply isize_apply_ge |].
     intros x Hx. apply ibyte_write_full_out. rewrite zlen_rec in Hx. lia.
+  - intros o b Hin. apply in_snoc_sys in Hin. auto.
   - intros o b Hin. apply in_snoc_sys in Hin. auto.
 Qed.
 
@@ -275,7 +290,7 @@ Lemma idle_appended s evs stable fo ae off bs :
   holds (view (D s evs)) off (rec bs) ->
   idle s (evs ++ [EAppended off bs]) stable (off + 4 + zlen bs) ae.
 Proof.
-  intros [Hst Hinf Hord Hsz Hp Hv Hd Hold Hsl] Hoff Hend Hh.
+  intros [Hst Hinf Hord Hsz Hp Hv Hd Hold Hsl Hsep] Hoff Hend Hh.
   pose proof (zlen_nonneg bs).
   constructor; unfold stable_root, inflight in *; rewrite ?marks_appended, ?D_snoc; cbn [ev_step]; auto.
   - lia.
@@ -284,6 +299,8 @@ Proof.
     + inversion Hin; subst o b. splitc; auto; lia.
   - intros o b Hin Hb. apply in_app_or in Hin. destruct Hin as [Hin|[Hin|[]]]; auto.
     inversion Hin; subst o b. lia.
+  - intros o b Hin. apply in_app_or in Hin. destruct Hin as [Hin|[Hin|[]]]; auto.
+    inversion Hin; subst o b. right. lia.
 Qed.
 
 (** * The root-write invariant *)
@@ -314,6 +331,8 @@ Record rw (s : start) (evs : list ev) (stable : option (root * Z)) (r : root) (D
       /\ forall x, ibyte img' x = ibyte D0 x
                    \/ (next_slot stable <= x < next_slot stable + zlen (rec (ser_root r))
                        /\ ibyte img' x = nth (Z.to_nat (x - next_slot stable)) (rec (ser_root r)) 0%N);
+  rw_sep : recs_sep evs (sfront stable);
+  rw_synced : forall pre r', evs = pre ++ [ERootBegin r'] -> pnd (D s pre) = [];
 }.
 
 Lemma zlen_ser_root r : 1 <= zlen (ser_root r) <= 52.
@@ -337,7 +356,8 @@ Proof. intros [->| ->]; [left | right]; split; reflexivity. Qed.
 
 Lemma rw_good s evs stable r D0 : rw s evs stable r D0 -> good s evs.
 Proof.
-  intros [Hst Hinf Hwf Hck Hgen Hfree Hrecs Hold Hsl Htear Himgs] img' Hc.
+  intros [Hst Hinf Hwf Hck Hgen Hfree Hrecs Hold Hsl Htear Himgs Hsep Hsyn]. split; [|exact Hsyn].
+  intros img' Hc.
   destruct (Himgs img' Hc) as [Hsize Hpt]. clear Himgs.
   set (slot := next_slot stable) in *.
   set (R := rec (ser_root r)) in *.
@@ -381,7 +401,7 @@ Proof.
     - intros x Hx. destruct (Hpt x) as [E|[Hr _]]; auto. exfalso.
       destruct Ho as [-> | ->]; destruct Hslot as [Hs|Hs]; rewrite Hs in Hr, Hne; consts; try lia; congruence. }
   unfold outcome_ok.
-  destruct (Htear img' Hmix) as [Hnew | Hsame].
+  destruct (Htear img' Hmix) as [Hnew | [Hsame | Hnone]].
   - (* the new root validates *)
     assert (Hopen : open sip img' = Some {| w_root := r; alloc_end := free_offset r; next_root := other_root slot; data_dirty := false |}).
     { apply open_of_choice. destruct stable as [[rs cs]|]; cbn [slots_ok next_slot stable_gen] in *.
@@ -398,6 +418,7 @@ Proof.
     unfold backed. destruct Hsane'. splitc; auto; try lia.
     + intros off bs Hin Hb. destruct (Hrecs off bs Hin) as (A & B & C). split; auto.
       rewrite <- zlen_rec. apply holds_read. eapply holds_ext; eauto. intros x Hx. apply Hdata. lia.
+    + intros off bs Hin. destruct (Hrecs off bs Hin) as (A & B & C). left. auto.
     + unfold old_intact, old_ok in *. cbn [sfront] in *. destruct s as [|img0 w0]; auto. destruct Hold as [H1 H2].
       split; [lia|]. intros x Hx. rewrite Hdata by lia. auto.
   - (* the slot validates as before: same decision as on D0 *)
@@ -420,6 +441,24 @@ Proof.
       assert (HB : lv img' ROOT_B = None).
       { rewrite (Hother ROOT_B) by (auto; consts; lia). apply lv_zero. intros x Hx. apply Hz. consts. lia. }
       unfold open. rewrite HA, HB. cbn. auto.
+  - (* the slot does not validate: the other slot decides *)
+    destruct stable as [[rs cs]|]; cbn [slots_ok next_slot sfront option_map fst] in *.
+    + destruct Hsl as (_ & Hcs & Hlv & Hch & _ & _ & Hwfs).
+      assert (Hchoice : choose_root (lv img' ROOT_A) (lv img' ROOT_B) = Some (rs, cs)).
+      { destruct (other_root_cases cs Hcs) as [[-> Ho]|[-> Ho]]; unfold slot in *; rewrite Ho in *.
+        - rewrite Hnone. rewrite (Hother ROOT_A) by (auto; consts; lia). rewrite Hlv. reflexivity.
+        - rewrite Hnone. rewrite (Hother ROOT_B) by (auto; consts; lia). rewrite Hlv. reflexivity. }
+      rewrite (open_of_choice img' rs cs) by auto.
+      cbn [w_root]. split; [left; auto|].
+      unfold backed. destruct Hsane'. splitc; auto; try lia.
+      * intros off bs Hin Hb. destruct (Hrecs off bs Hin) as (A & B & C). split; auto.
+        rewrite <- zlen_rec. apply holds_read. eapply holds_ext; eauto. intros x Hx. apply Hdata. lia.
+      * unfold old_intact, old_ok in *. cbn [sfront] in *. destruct s as [|img0 w0]; auto. destruct Hold as [H1 H2].
+        split; [auto|]. intros x Hx. rewrite Hdata by lia. auto.
+    + destruct Hsl as [_ Hz]. unfold slot in *.
+      assert (HB : lv img' ROOT_B = None).
+      { rewrite (Hother ROOT_B) by (auto; consts; lia). apply lv_zero. intros x Hx. apply Hz. consts. lia. }
+      unfold open. rewrite Hnone, HB. cbn. auto.
 Qed.
 
 End Inv.
